@@ -183,8 +183,10 @@ func init() {
 			return nil
 		}
 		var outs []Outcome
-		if x.faulty {
+		inMemory := iv.Dyn != nil && (iv.Dyn.String() == "*bytes.Buffer" || iv.Dyn.String() == "*bytes.Reader")
+		if x.faulty && !inMemory {
 			// fault mode: the read may fail after delivering any part of what was asked for
+			// (not for a reader known to be an in-memory buffer: its reads cannot fail)
 			f := st.fork()
 			n := f.fresh("rn", SInt)
 			f.assume(tAnd(tCmp("<=", "0", n), tCmp("<=", n, x.lenOf(f, args[0], cc.Args[0].Type()))))
